@@ -1,9 +1,10 @@
 #!/bin/sh
 # usage: tools/evalsum.sh Cxx [other props...]  -> evaluates seeds 1..3 in /tmp/wt_Cxx
 p=$1; shift
+W=${WT_PREFIX:-/tmp/wt_}
 for k in 1 2 3; do
-  [ -f /tmp/wt_$p/seeded_out/patch_$k.diff ] || continue
-  /verif/tools/evalseed.py /tmp/wt_$p $k $p "$@" 2>/dev/null | /venv/bin/python -c "
+  [ -f $W$p/seeded_out/patch_$k.diff ] || continue
+  /verif/tools/evalseed.py $W$p $k $p "$@" 2>/dev/null | /venv/bin/python -c "
 import sys,json
 t=sys.stdin.read()
 try:
